@@ -96,6 +96,8 @@ def r1_r2(ctx: Ctx, d: Decider) -> Set[str]:
                 continue          # idempotence guard
             if text.startswith('tag not in ') and truth:
                 continue
+            if any(text == f'{x} in {a}' and not truth for a in accs for x in target_names_in(n)) or (text.startswith('tag in ') and not truth):
+                continue          # the same idempotence guard spelled `if tag in acc: continue`
             extra.append((text, truth))
         ok = matched and not extra
         why = 'not control-dependent on the match flag' if not matched else \
@@ -154,6 +156,23 @@ def _is_stripped_value(val) -> bool:
 # --------------------------------------------------------------------------- R3
 def r3_normal_form(ctx: Ctx) -> None:
     proj = ctx.proj
+    # the text of a tags: item reaches the resolver as written (stripped only): a `{expression}` item is case-sensitive source text
+    # (string literals, regex classes such as \S / \D), so the loader must not fold its case; plain tags are lower-cased by the resolver
+    pf = proj.func('merchant_engine.MerchantEngine.parse')
+    pfl = get_flow(proj, pf)
+    tag_sets = {src(s.value) for s in ast.walk(pf.node) if isinstance(s, ast.Assign) and src(s.targets[0]) == "current_rule['tags']" and isinstance(s.value, ast.Name)}
+    n_items = 0
+    for n in all_nodes(pf.node):
+        if isinstance(n, ast.Call) and isinstance(n.func, ast.Attribute) and n.func.attr in ('add', 'append') and isinstance(n.func.value, ast.Name) and n.func.value.id in tag_sets and n.args:
+            n_items += 1
+            ops = {o for _l, os_ in pfl.leaf_paths(n.args[0], n) for o in os_}
+            folds = sorted(o for o in ops if o in ('call:lower', 'call:upper', 'call:casefold', 'call:title', 'call:capitalize', 'call:swapcase'))
+            if folds and any("'{'" in t for t, _tr in pfl.cfg.guard_literals(pfl.stmt_of(n))):
+                folds = []          # folding restricted to items that are not {expressions}
+            ctx.check(not folds, 'C02.R3', pf, 'tags-item-as-written', 'a tags: item is stored as written (stripped only)',
+                      f'a tags: item passes through {folds} when the file is loaded: the source of a {{expression}} tag is rewritten (e.g. the regex class \\S becomes \\s), '
+                      f'so the expression no longer yields its value and the tag is silently missing', n)
+    ctx.need(n_items >= 1, 'C02.R3: no tags: item store found in MerchantEngine.parse')
     for qn in ('merchant_engine.MerchantEngine._resolve_tags', 'merchant_utils._resolve_dynamic_tags'):
         f = proj.func(qn)
         fl = get_flow(proj, f)
@@ -213,8 +232,16 @@ def r4_neutrality(ctx: Ctx, eng: Decider) -> None:
     for s in sels:
         cand = s.value.args[0]
         # what field does this winner feed?  look at the next stores to result.<field> that read the target
-        tname = s.targets[0].id if isinstance(s.targets[0], ast.Name) else None
-        fed = _fields_fed(d, s, tname)
+        tgt = s.targets[0]
+        if isinstance(tgt, ast.Name):
+            tnames = [tgt.id]
+        elif isinstance(tgt, (ast.Tuple, ast.List)):
+            tnames = [e.id for e in tgt.elts if isinstance(e, ast.Name) and e.id != '_']      # winner unpacked: (rule, score, variables)
+        else:
+            tnames = []
+        fed = set()
+        for tname in tnames:
+            fed |= _fields_fed(d, s, tname)
         if not fed:
             continue
         # candidate list definition
